@@ -53,11 +53,14 @@ func envPolicies() map[string]PolicyCfg {
 	p = base
 	p.CacheIK, p.SharedIK, p.CacheSK = false, true, false
 	m["nocache+shared"] = p
+	p = base
+	p.SharedIK = true
+	m["shared-simple"] = p
 	return m
 }
 
 var envCfgNames = []string{"default", "minute", "nocache", "skonly", "shared-lru2", "sk-lru1", "ik-slru1", "ik-lfu2", "tinylfu",
-	"sesscache2", "sesscache1-exp", "nocache+shared"}
+	"sesscache2", "sesscache1-exp", "nocache+shared", "shared-simple"}
 
 type envGen struct {
 	r     *gen.Rand
@@ -290,7 +293,12 @@ func genEnvCase(r *gen.Rand, cfgName string, mode string) *EnvCase {
 			if mode != "nofault" {
 				fs = g.faults(14)
 			}
-			g.do(EnvOp{K: "encrypt", S: h.s, Payload: g.nextPl, Faults: fs})
+			eop := EnvOp{K: "encrypt", S: h.s, Payload: g.nextPl, Faults: fs}
+			if mode == "relfail" && r.Chance(1, 2) {
+				n := r.Intn(5)
+				eop.RelFail = &n
+			}
+			g.do(eop)
 			if fs != nil && r.Chance(2, 3) { // once the faults stop the next operation succeeds
 				g.nextPl++
 				g.do(EnvOp{K: "encrypt", S: h.s, Payload: g.nextPl})
@@ -318,7 +326,12 @@ func genEnvCase(r *gen.Rand, cfgName string, mode string) *EnvCase {
 			if mode != "nofault" && muts == nil {
 				fs = g.faults(8)
 			}
-			g.do(EnvOp{K: "decrypt", S: h.s, Rec: rec, Muts: muts, Faults: fs})
+			dop := EnvOp{K: "decrypt", S: h.s, Rec: rec, Muts: muts, Faults: fs}
+			if mode == "relfail" && r.Chance(1, 2) {
+				n := r.Intn(4)
+				dop.RelFail = &n
+			}
+			g.do(dop)
 		case c < 73:
 			g.do(EnvOp{K: "advance", D: gen.Pick(r, g.advances())})
 		case c < 80:
@@ -469,6 +482,14 @@ func genEnvCase(r *gen.Rand, cfgName string, mode string) *EnvCase {
 					sess = append(sess, sh{s, h.f, "p9"})
 					g.nextPl++
 					g.do(EnvOp{K: "encrypt", S: s, Payload: g.nextPl})
+					// the new partition's write has put a newer system key into the factory's cache; the long-lived session's intermediate
+					// key still hangs under the revoked one and has to notice within its own re-check
+					g.do(EnvOp{K: "advance", D: 2*g.pol.RCI + 1})
+					g.nextPl++
+					g.do(EnvOp{K: "encrypt", S: h.s, Payload: g.nextPl})
+					g.do(EnvOp{K: "advance", D: g.pol.RCI + 1})
+					g.nextPl++
+					g.do(EnvOp{K: "encrypt", S: h.s, Payload: g.nextPl})
 				}
 			} else {
 				if iid, icreated, ok := g.latestKey("_IK_", h.part); ok {
